@@ -136,6 +136,44 @@ def newer_versions():
     return out
 
 
+def relative_path_session_check():
+    """the version gate looks at the directory it is asked about, also when the same relative spelling ('.') was used for another
+    project earlier in the session: a good project first, then '.' inside a project of another version / a legacy project"""
+    import signac
+    from signac.errors import IncompatibleSchemaVersion
+    out = []
+    for other in ("v2-version-3", "legacy-v1", "v2-absent"):
+        with dir_scratch() as d:
+            good, bad = os.path.join(d, "good"), os.path.join(d, "bad")
+            os.makedirs(good)
+            signac.init_project(good)
+            if other == "legacy-v1":
+                make_legacy(bad, 1, "legacy name", None, False, 1)
+            else:
+                os.makedirs(os.path.join(bad, ".signac"))
+                open(os.path.join(bad, ".signac", "config"), "w").write("schema_version = 3\n" if other == "v2-version-3" else "")
+            cwd = os.getcwd()
+            try:
+                os.chdir(good)
+                signac.Project(".")
+                signac.get_project(".")
+                os.chdir(bad)
+                snap = {dp: sorted(fn) for dp, dn, fn in os.walk(bad)}
+                for nm, fn in (("Project", lambda: signac.Project(".")), ("get_project", lambda: signac.get_project(".")), ("init_project", lambda: signac.init_project("."))):
+                    try:
+                        fn()
+                        out.append((f"relative:{other}:{nm}", f"after Project('.') in an up-to-date project, {nm}('.') inside a {other} project was accepted"))
+                    except IncompatibleSchemaVersion:
+                        pass
+                    except Exception as e:
+                        out.append((f"relative:{other}:{nm}", f"{nm}('.') inside a {other} project: expected IncompatibleSchemaVersion, got {type(e).__name__}: {e}"))
+                if {dp: sorted(fn) for dp, dn, fn in os.walk(bad)} != snap:
+                    out.append((f"relative:{other}:modified", f"the {other} project was modified"))
+            finally:
+                os.chdir(cwd)
+    return out
+
+
 def run(tier="quick", seed=0):
     b = Budget(16 if tier == "quick" else 200)
     evals, distinct, failures, samples = 0, set(), [], []
@@ -159,7 +197,15 @@ def run(tier="quick", seed=0):
         if bad:
             failures.append({"key": "migrate:" + str(cfg)[:70], "description": bad + f" (configuration {cfg})",
                              "script": script_header() + f"sys.path.insert(0, '/verif')\nfrom pybound.c20 import scenario\nbad = scenario(*{cfg!r})\nassert not bad, bad\n"})
-    for key, desc in newer_versions():
+    def guarded(fn, key):
+        try:
+            return fn()
+        except BaseException as e:      # also AssertionError from inside the code under test: a failure of the probe, not a crash of the checker
+            import traceback
+            return [(key + ":raised", f"{fn.__name__} raised {type(e).__name__}: {str(e)[:200]} :: {traceback.format_exc()[-300:]}")]
+    for key, desc in guarded(relative_path_session_check, "relative"):
+        failures.append({"key": key, "description": desc, "script": script_header() + "sys.path.insert(0, '/verif')\nfrom pybound.c20 import relative_path_session_check\nr = relative_path_session_check()\nassert not r, r\n"})
+    for key, desc in guarded(newer_versions, "newer"):
         failures.append({"key": key, "description": desc, "script": script_header() + "sys.path.insert(0, '/verif')\nfrom pybound.c20 import newer_versions\nr = newer_versions()\nassert not r, r\n"})
         evals += 1
     return {"scope": "legacy configurations: schema_version in {absent, 1} x project names (default 'None', plain, with spaces/punctuation) x workspace_dir in {absent, 'workspace', custom, nested} "
